@@ -39,6 +39,13 @@ def execute(spec, state):
         state["loop"] = asyncio.new_event_loop()
         state["workdir"] = tempfile.mkdtemp(prefix="vt-c06w-", dir="/dev/shm" if os.path.isdir("/dev/shm") else None)
     t = state["tools"]
+    if kind == "set_schema":
+        # the ENVIRONMENT edits the named schema's text between two calls (cwd-relative schema directory)
+        d = os.path.join(os.getcwd(), "specs", "schemas")
+        os.makedirs(d, exist_ok=True)
+        with open(os.path.join(d, a["name"].lower() + ".oct.md"), "w", encoding="utf-8") as f:
+            f.write(a["text"])
+        return {"set": a["name"]}
     if kind in ("validate", "eject", "compile"):
         return state["loop"].run_until_complete(t[kind].execute(**a))
     if kind == "write":
